@@ -64,5 +64,23 @@ Proof.
   - rewrite Z.mod_small by lia. destruct (Z.ltb_spec v (2 ^ (bits - 1))); lia.
 Qed.
 
+Lemma pack_be_2 x : pack_be 2 x = [(x / 256) mod 256; x mod 256].
+Proof.
+  unfold pack_be. cbn [Z.of_nat Z.mul Pos.mul Pos.of_succ_nat Pos.succ].
+  rewrite !land_255, Z.shiftr_0_r, Z.shiftr_div_pow2 by lia. reflexivity.
+Qed.
+Lemma pack_be_3 x : pack_be 3 x = [(x / 65536) mod 256; (x / 256) mod 256; x mod 256].
+Proof.
+  unfold pack_be. cbn [Z.of_nat Z.mul Pos.mul Pos.of_succ_nat Pos.succ].
+  rewrite !land_255, Z.shiftr_0_r, !Z.shiftr_div_pow2 by lia. reflexivity.
+Qed.
+Lemma pack_be_4 x :
+  pack_be 4 x = [(x / 16777216) mod 256; (x / 65536) mod 256; (x / 256) mod 256; x mod 256].
+Proof.
+  unfold pack_be. cbn [Z.of_nat Z.mul Pos.mul Pos.of_succ_nat Pos.succ].
+  rewrite !land_255, Z.shiftr_0_r, !Z.shiftr_div_pow2 by lia. reflexivity.
+Qed.
+
+
 Global Arguments pack_be : simpl never.
 Global Arguments take_be : simpl never.
